@@ -244,6 +244,14 @@ def error_cases():
         ("missing-extended-file", {"f0.toml": H + 'extend_config = "nope.toml"\n'}),
         ("error-in-extended-file", {"f0.toml": H + 'extend_config = "f1.toml"\n', "f1.toml": H + "nonsense = 1\n"}),
         ("bool-for-int-in-override", {"f0.toml": H + O + 'module = "a"\nmaximum_positional_args = false\n'}),
+        # wrong value types one level up: the whole section / an override entry / the overrides list members
+        ("section-not-a-table", {"f0.toml": "[tool]\npyanalyze = 3\n"}),
+        ("section-a-list", {"f0.toml": "[tool]\npyanalyze = [1]\n"}),
+        ("override-entry-not-a-table", {"f0.toml": H + "overrides = [3]\n"}),
+        ("extend-list", {"f0.toml": H + 'extend_config = ["f1.toml"]\n', "f1.toml": H}),
+        ("list-of-lists", {"f0.toml": H + 'extra_builtins = [["x"]]\n'}),
+        ("table-for-bool", {"f0.toml": H + "undefined_name = {a = 1}\n"}),
+        ("float-for-bool", {"f0.toml": H + "undefined_name = 1.0\n"}),
     ]
 
 
